@@ -10,6 +10,8 @@ import (
 	"math/big"
 	"strconv"
 	"strings"
+
+	"github.com/edutko/decipher/internal/ssh1/des"
 )
 
 const Header = "SSH PRIVATE KEY FILE FORMAT 1.1\n\x00"
@@ -17,20 +19,18 @@ const Header = "SSH PRIVATE KEY FILE FORMAT 1.1\n\x00"
 var ErrCorrupted = errors.New("invalid private key data or incorrect password")
 
 func ParsePrivateKey(data, password []byte) (*rsa.PrivateKey, string, error) {
-	if !bytes.Equal(data[:len(Header)], []byte(Header)) {
+	if len(data) < len(Header) || !bytes.Equal(data[:len(Header)], []byte(Header)) {
 		return nil, "", fmt.Errorf("invalid SSH1 private key")
 	}
 
 	r := bytes.NewReader(data[len(Header):])
 
-	b := make([]byte, 1)
-	_, _ = r.Read(b)
-	cipher := cipherType(b[0])
-	reserved := make([]byte, 4)
-	_, _ = r.Read(reserved)
-
-	pubBits := make([]byte, 4)
-	_, _ = r.Read(pubBits)
+	// cipher type (1 byte), reserved (4 bytes), public key size in bits (4 bytes)
+	fixed := make([]byte, 9)
+	if _, err := io.ReadFull(r, fixed); err != nil {
+		return nil, "", ErrCorrupted
+	}
+	cipher := cipherType(fixed[0])
 
 	n, err := readMPInt(r)
 	if err != nil {
@@ -56,13 +56,18 @@ func ParsePrivateKey(data, password []byte) (*rsa.PrivateKey, string, error) {
 
 	if cipher == tripleDES {
 		ciphertext, _ := io.ReadAll(r)
+		if len(ciphertext)%des.BlockSize != 0 {
+			return k, comment, ErrCorrupted
+		}
 		plaintext := decrypt(ciphertext, password)
 		r = bytes.NewReader(plaintext)
 	}
 
 	// in a valid key, the pair of bytes is repeated
 	abab := make([]byte, 4)
-	_, _ = r.Read(abab)
+	if _, err := io.ReadFull(r, abab); err != nil {
+		return k, comment, ErrCorrupted
+	}
 	if abab[0] != abab[2] || abab[1] != abab[3] {
 		return k, comment, ErrCorrupted
 	}
@@ -124,29 +129,27 @@ const (
 	tripleDES    cipherType = 3
 )
 
-func readMPInt(r io.Reader) (*big.Int, error) {
+func readMPInt(r *bytes.Reader) (*big.Int, error) {
 	l := make([]byte, 2)
-	_, err := r.Read(l)
-	if err != nil {
+	if _, err := io.ReadFull(r, l); err != nil {
 		return nil, err
 	}
-	b := make([]byte, (binary.BigEndian.Uint16(l)+7)/8)
-	_, err = r.Read(b)
-	if err != nil {
+	n := (int(binary.BigEndian.Uint16(l)) + 7) / 8
+	b := make([]byte, n)
+	if _, err := io.ReadFull(r, b); err != nil {
 		return nil, err
 	}
 	return big.NewInt(0).SetBytes(b), nil
 }
 
-func readString(r io.Reader) (string, error) {
+func readString(r *bytes.Reader) (string, error) {
 	l := make([]byte, 4)
-	_, err := r.Read(l)
-	if err != nil {
+	if _, err := io.ReadFull(r, l); err != nil {
 		return "", err
 	}
-	b := make([]byte, binary.BigEndian.Uint32(l))
-	_, err = r.Read(b)
-	if err != nil {
+	n := binary.BigEndian.Uint32(l)
+	b := make([]byte, n)
+	if _, err := io.ReadFull(r, b); err != nil {
 		return "", err
 	}
 	return string(b), nil
